@@ -146,7 +146,7 @@ def _(self, disp, img_left, img_right, cv):
         and not isinf(old(disp["disparity_map"].data)[y, x])))
 
 
-@contract("pandora.filter.bilateral.BilateralFilter.filter_disparity", props=["C10", "C04"])
+@contract("pandora.filter.bilateral.BilateralFilter.filter_disparity", props=["C10", "C04", "C09"])
 def _(self, disp, img_left, img_right, cv):
     types(self={"@attrs": {"_sigma_space": "float", "_sigma_color": "float"}},
           disp={"vars": {"disparity_map": "f32[:,:]", "validity_mask": "u16[:,:]"}, "attrs": {"filter": "str"}},
@@ -172,6 +172,31 @@ def _(self, disp, img_left, img_right, cv):
         + min(disp["disparity_map"].data.shape[0], disp["disparity_map"].data.shape[1], int(3 * self._sigma_space + 1)) > disp["disparity_map"].data.shape[0]
         or x - min(disp["disparity_map"].data.shape[0], disp["disparity_map"].data.shape[1], int(3 * self._sigma_space + 1)) // 2
         + min(disp["disparity_map"].data.shape[0], disp["disparity_map"].data.shape[1], int(3 * self._sigma_space + 1)) > disp["disparity_map"].data.shape[1]))
+    # every other valid pixel: the kernel applied to its own window of the map IN WHICH INVALID PIXELS ARE NaN -- an invalid neighbour
+    # (whatever marker it carries: invalid_disparity may be any number) never enters the average (C10 "average of valid neighbours",
+    # C09 "stays within the interval whatever filtering followed")
+    ensures("kernel_of_masked_window", all(
+        eq(disp["disparity_map"].data[y, x], bilateral_kernel(
+            array_of(lambda yy, xx: (np.nan if old(disp["validity_mask"].data)[yy, xx] & 0b01111000011 != 0
+                                     else old(disp["disparity_map"].data)[yy, xx]),
+                     disp["disparity_map"].data.shape[0], disp["disparity_map"].data.shape[1])[
+                y - min(disp["disparity_map"].data.shape[0], disp["disparity_map"].data.shape[1], int(3 * self._sigma_space + 1)) // 2:
+                y - min(disp["disparity_map"].data.shape[0], disp["disparity_map"].data.shape[1], int(3 * self._sigma_space + 1)) // 2
+                + min(disp["disparity_map"].data.shape[0], disp["disparity_map"].data.shape[1], int(3 * self._sigma_space + 1)),
+                x - min(disp["disparity_map"].data.shape[0], disp["disparity_map"].data.shape[1], int(3 * self._sigma_space + 1)) // 2:
+                x - min(disp["disparity_map"].data.shape[0], disp["disparity_map"].data.shape[1], int(3 * self._sigma_space + 1)) // 2
+                + min(disp["disparity_map"].data.shape[0], disp["disparity_map"].data.shape[1], int(3 * self._sigma_space + 1))],
+            None, self._sigma_color,
+            min(disp["disparity_map"].data.shape[0], disp["disparity_map"].data.shape[1], int(3 * self._sigma_space + 1)) // 2))
+        for y in range(disp["disparity_map"].data.shape[0]) for x in range(disp["disparity_map"].data.shape[1])
+        if old(disp["validity_mask"].data)[y, x] & 0b01111000011 == 0
+        and not isnan(old(disp["disparity_map"].data)[y, x]) and not isinf(old(disp["disparity_map"].data)[y, x])
+        and y >= min(disp["disparity_map"].data.shape[0], disp["disparity_map"].data.shape[1], int(3 * self._sigma_space + 1)) // 2
+        and y - min(disp["disparity_map"].data.shape[0], disp["disparity_map"].data.shape[1], int(3 * self._sigma_space + 1)) // 2
+        + min(disp["disparity_map"].data.shape[0], disp["disparity_map"].data.shape[1], int(3 * self._sigma_space + 1)) <= disp["disparity_map"].data.shape[0]
+        and x >= min(disp["disparity_map"].data.shape[0], disp["disparity_map"].data.shape[1], int(3 * self._sigma_space + 1)) // 2
+        and x - min(disp["disparity_map"].data.shape[0], disp["disparity_map"].data.shape[1], int(3 * self._sigma_space + 1)) // 2
+        + min(disp["disparity_map"].data.shape[0], disp["disparity_map"].data.shape[1], int(3 * self._sigma_space + 1)) <= disp["disparity_map"].data.shape[1]))
 
 
 @sampler("pandora.filter.median.MedianFilter.filter_disparity")
